@@ -598,8 +598,13 @@ pub fn gen_history(rng: &mut Rng, o: &HistOpts) -> Scenario {
                 counter += 1;
                 let e = if o.touch_only {
                     let files = editable_files(&sc);
+                    let planted: Vec<&(String, bool)> = files.iter().filter(|f| f.0.contains("/.zinoma/")).collect();
                     if files.is_empty() {
                         None
+                    } else if !planted.is_empty() && rng.chance(35) {
+                        // a file inside a (nested) work directory is not a declared resource:
+                        // rewriting it leaves the tree "untouched" as far as any target goes
+                        Some(Step::Fs(FsOp::Write { path: rng.pick(&planted).0.clone(), content: format!("irrelevant rewrite #{}\n", counter) }))
                     } else {
                         Some(Step::Fs(FsOp::Touch { path: rng.pick(&files).0.clone() }))
                     }
@@ -1036,6 +1041,25 @@ impl Property for C12 {
             extra.push(FileSpec { path: format!("{}/precious_dir/inner.o", p.dir), kind: FileKind::File("must survive too\n".into()) });
         }
         sc.files.extend(extra);
+        // an output resource listing several paths, one of which never exists
+        for p in sc.projects.iter_mut() {
+            for t in p.targets.iter_mut() {
+                if t.kind == Kind::Build && t.writes.len() == 1 && t.writes[0].ends_with(".out") && rng.chance(40) {
+                    let base = t.writes[0].trim_end_matches(".out").to_string();
+                    let second = format!("{}.map", base);
+                    t.output = vec![Res::Paths { paths: vec![format!("{}.missing", base), t.writes[0].clone(), format!("{}.never", base), second.clone()], extensions: None }];
+                    t.writes.push(second);
+                }
+            }
+        }
+        // a loaded project without any target that still holds recorded state of former targets
+        if rng.chance(25) && sc.projects[0].targets.iter().all(|t| t.name != "zz") {
+            let idx = sc.projects.len();
+            sc.projects.push(Project { dir: "pe".into(), name: Some("empty".into()), imports: vec![], targets: vec![], raw_yaml: None });
+            sc.projects[0].imports.push(("empty".into(), idx));
+            sc.files.push(FileSpec { path: "pe/.zinoma/former.checksums".into(), kind: FileKind::File("state of a target that no longer exists\n".into()) });
+            sc.files.push(FileSpec { path: "pe/keep.txt".into(), kind: FileKind::File("must survive\n".into()) });
+        }
         // sometimes a --clean without targets at the end
         if rng.chance(50) {
             let mut inv = plain_invocation(rng, &sc, 0, vec!["--clean".into()]);
